@@ -10,6 +10,7 @@ mod c01;
 mod c15;
 mod common;
 mod concurrent;
+mod infer;
 mod layouts;
 mod strategies;
 
@@ -31,6 +32,7 @@ fn real_main() {
         "c26" => strategies::run_c26(&args),
         "c24" => strategies::run_c24(&args),
         "c22" => concurrent::run_c22(&args),
+        "c10" => infer::run_c10(&args),
         "noop" => {}
         other => {
             eprintln!("unknown sub-command {:?}", other);
